@@ -310,18 +310,25 @@ class Section(Entity):
         """
         if self._sec_parent is not None:
             return self._sec_parent
-        # BFS
+        # BFS; sections are compared by the stored object they denote: after
+        # an id-keeping copy_section two sections of the file share name and
+        # id, and only one of them is this one
+        def holds_self(sects):
+            mine = self._h5group.group
+            return any(sec._h5group.group == mine for sec in sects)
+
         sections = list(self.file.sections)
-        if self in sections:
+        if holds_self(sections):
             # Top-level section
             return None
 
         while sections:
             sect = sections.pop(0)
-            if self in sect.sections:
+            children = list(sect.sections)
+            if holds_self(children):
                 self._sec_parent = sect
                 return sect
-            sections.extend(sect.sections)
+            sections.extend(children)
 
         return None
 
